@@ -279,7 +279,8 @@ fn expand_use(t: &[&str], i: &mut usize, prefix: String, out: &mut Vec<String>) 
 /// sides before comparing token sequences (DESIGN C11):
 ///  N1/N1': a `,` directly before a closing `)` `]` `}` `>` or `|` is dropped, unless it closes a
 ///          one-element tuple `( X , )` in tuple position (where it carries meaning);
-///  N2: a `;` directly after `}` is dropped;
+///  N2: a `;` directly after `}` is dropped, unless the next token could continue the block
+///      expression (`|`, `||`, `&`, `&&`, `-`, `*`, `[`), where the `;` separates two statements;
 ///  N3: a `::` before the generic arguments of the last path segment in type position (emitted as
 ///      `::?` by the lexing walk) is dropped; in expression position it is kept.
 pub fn normalize(toks: &[String]) -> Vec<String> {
@@ -336,7 +337,10 @@ pub fn normalize(toks: &[String]) -> Vec<String> {
                 }
             }
             ";" => {
-                if i > 0 && toks[i - 1] == "}" {
+                // Not meaning-free when the next token could continue the block expression as a
+                // binary operator / index (`if c {} ; |x| x` vs `if c {} | x | x`).
+                let continues = matches!(next, Some("|") | Some("||") | Some("&") | Some("&&") | Some("-") | Some("*") | Some("["));
+                if i > 0 && toks[i - 1] == "}" && !continues {
                     // dropped
                 } else {
                     out.push(t.to_string());
